@@ -1,1 +1,55 @@
-// harness bodies for h2 src/frame/go_away.rs (compiled in-crate as `verif_h`, feature "verif")
+// harness bodies for h2 src/frame/go_away.rs
+use super::*;
+use crate::frame::head::verif_h::ref_parse_head;
+
+/// C12.rt[goaway]: load on arbitrary payload bytes of length n (up to 4 bytes of debug
+/// data), then encode -> reference parser -> load.
+fn rt_go_away(n: usize) {
+    let bytes: [u8; 12] = kani::any();
+    let r = GoAway::load(&bytes[..n]);
+    match &r {
+        Ok(g) => {
+            assert!(n >= 8, "short GOAWAY accepted");
+            let last = u32::from_be_bytes([bytes[0], bytes[1], bytes[2], bytes[3]]) & 0x7fff_ffff;
+            let code = u32::from_be_bytes([bytes[4], bytes[5], bytes[6], bytes[7]]);
+            assert!(u32::from(g.last_stream_id()) == last, "last-stream-id");
+            assert!(u32::from(g.reason()) == code, "error code");
+            assert!(g.debug_data().len() == n - 8, "debug data length");
+            let mut i = 0;
+            while i < n - 8 {
+                assert!(g.debug_data()[i] == bytes[8 + i], "debug data byte");
+                i += 1;
+            }
+            let mut out = [0u8; 21];
+            let mut dst = &mut out[..];
+            g.encode(&mut dst);
+            let written = 21 - dst.len();
+            assert!(written == 9 + n, "GOAWAY wire length");
+            let mut hb = [0u8; 9];
+            hb.copy_from_slice(&out[..9]);
+            let (l, t, f, r, s) = ref_parse_head(&hb);
+            assert!(l as usize == n && t == 7 && f == 0 && !r && s == 0, "GOAWAY head on the wire");
+            let q = GoAway::load(&out[9..9 + n]).unwrap();
+            assert!(q.last_stream_id() == g.last_stream_id() && q.reason() == g.reason());
+            assert!(q.debug_data().len() == g.debug_data().len());
+            let mut i = 0;
+            while i < n - 8 {
+                assert!(q.debug_data()[i] == g.debug_data()[i], "debug data round trip");
+                i += 1;
+            }
+            std::mem::forget(q);
+        }
+        Err(e) => {
+            assert!(n < 8, "legal GOAWAY rejected");
+            assert!(*e == Error::BadFrameSize);
+        }
+    }
+    kani::cover!(true, "end");
+    std::mem::forget(r);
+}
+// `GoAway::load` copies the debug data into a fresh allocation; a symbolic
+// allocation size exhausts the SAT back end, so the length is concrete per query.
+pub fn c12_rt_go_away_len7() { rt_go_away(7) }
+pub fn c12_rt_go_away_len8() { rt_go_away(8) }
+pub fn c12_rt_go_away_len9() { rt_go_away(9) }
+pub fn c12_rt_go_away_len12() { rt_go_away(12) }
